@@ -353,8 +353,10 @@ func readBlockString(s *source.Source, start int) (Token, error) {
 			y, _ := runeAt(body, position+2)
 			z, _ := runeAt(body, position+3)
 			if x == '"' && y == '"' && z == '"' {
-				stringContent := append(body[chunkStart:position], []byte(`"""`)...)
-				valueBuffer.Write(stringContent)
+				// Do not append to the sub-slice of body: its capacity extends
+				// over the following source bytes, which would be overwritten.
+				valueBuffer.Write(body[chunkStart:position])
+				valueBuffer.WriteString(`"""`)
 				position += 4     // account for `"""` characters
 				runePosition += 4 // "       "   "     "
 				chunkStart = position
